@@ -10,10 +10,11 @@ Definition h1 : str := [49; 50; 55; 46; 48; 46; 48; 46; 49].           (* "127.0
 Definition sv (port : Z) (r : role) : server := {| sv_host := h1; sv_port := port; sv_role := r |}.
 Definition usr (name : str) (size : Z) : user :=
   {| u_name := name; u_password := true; u_pool_size := size; u_min_pool_size := None;
-     u_connect_timeout := None; u_idle_timeout := None; u_server_lifetime := None |}.
+     u_connect_timeout := None; u_idle_timeout := None; u_server_lifetime := None;
+     u_pool_mode := None; u_statement_timeout := 0 |}.
 Definition mkpool (shs : list (str * shard)) (us : list (str * user)) (ds : dshard) (dr : str) : pool :=
   {| p_name := [100; 98]; p_default_role := dr; p_default_shard := ds;
-     p_parser := false; p_rw_split := false; p_plugins := false; p_auto_key := None;
+     p_parser := false; p_rw_split := false; p_plugins := None; p_pool_mode := Transaction; p_auto_key := None;
      p_key_regex := None; p_shard_regex := None;
      p_auth_query := false; p_auth_user := false; p_auth_password := false;
      p_connect_timeout := None; p_idle_timeout := None; p_server_lifetime := None;
@@ -21,7 +22,8 @@ Definition mkpool (shs : list (str * shard)) (us : list (str * user)) (ds : dsha
      p_shards := shs; p_users := us |}.
 Definition mkcfg (ps : list pool) : config :=
   {| g_auth_query := false; g_auth_user := false; g_auth_password := false;
-     g_connect_timeout := 1000; g_idle_timeout := 600000; g_server_lifetime := 3600000; c_pools := ps |}.
+     g_connect_timeout := 1000; g_idle_timeout := 600000; g_server_lifetime := 3600000;
+     g_tls_cert := None; g_tls_key := None; g_plugins := None; c_pools := ps |}.
 Definition shd (svs : list server) : shard := {| sh_servers := svs; sh_mirrors := [] |}.
 
 
@@ -38,6 +40,38 @@ Theorem c15_accepted_servable : forall c, accept c = true -> small c -> typed c 
        exists bp, In bp pools /\ bp_db bp = p_name p /\ bp_user bp = u_name (snd ku)).
 Proof. exact accepted_servable. Qed.
 Print Assumptions c15_accepted_servable.
+
+(** The settings of every built pool follow the code's precedence: pool_mode user over pool,
+    plugins pool table over the global one, bb8 timeouts user over pool over [general] (all
+    non-zero), sizes / statement_timeout the user's own. *)
+Theorem c15_built_settings : forall c pools, accept c = true -> small c -> typed c -> build c = Built pools ->
+  forall bp, In bp pools ->
+  exists p ku, In p (c_pools c) /\ In ku (p_users p) /\ bp_db bp = p_name p /\ bp_user bp = u_name (snd ku) /\
+               settings_ok c p (snd ku) bp.
+Proof. exact built_settings. Qed.
+Print Assumptions c15_built_settings.
+
+(** tls_certificate / tls_private_key only add their own conditions: with a loadable pair (or
+    without a certificate) the verdict is the verdict of the same file without them — in
+    particular every pool / shard / user check still runs. *)
+Theorem c15_tls_verdict : forall c, accept c = tls_ok c && accept (without_tls c).
+Proof. exact accept_tls. Qed.
+Print Assumptions c15_tls_verdict.
+
+Theorem c15_tls_pair_independent : forall c, g_tls_cert c = Some true -> g_tls_key c = Some true ->
+  accept c = accept (without_tls c).
+Proof. exact tls_pair_independent. Qed.
+Print Assumptions c15_tls_pair_independent.
+
+Theorem c15_tls_key_alone_independent : forall c, g_tls_cert c = None -> accept c = accept (without_tls c).
+Proof. exact tls_key_alone_independent. Qed.
+Print Assumptions c15_tls_key_alone_independent.
+
+Theorem c15_rejects_tls : forall c,
+  g_tls_cert c = Some false \/
+  (g_tls_cert c = Some true /\ (g_tls_key c = None \/ g_tls_key c = Some false)) -> accept c = false.
+Proof. exact reject_tls. Qed.
+Print Assumptions c15_rejects_tls.
 
 (** Accepted shard keys denote 0 .. n-1 bijectively (whatever their spelling). *)
 Theorem c15_key_parse : forall p, pool_validate p = true ->
@@ -149,7 +183,7 @@ Print Assumptions c15_user_zero_timeout.
 
 Theorem c15_rejects_pool_settings : forall p,
   regex_bad (p_shard_regex p) = true \/ regex_bad (p_key_regex p) = true \/
-  (p_rw_split p = true /\ p_parser p = false) \/ (p_plugins p = true /\ p_parser p = false) \/
+  (p_rw_split p = true /\ p_parser p = false) \/ (has_plugins p = true /\ p_parser p = false) \/
   auto_key_ok (p_auto_key p) = false \/
   p_connect_timeout p = Some 0 \/ p_idle_timeout p = Some 0 \/ p_server_lifetime p = Some 0 ->
   pool_validate p = false.
@@ -217,6 +251,7 @@ Proof. vm_compute. reflexivity. Qed.
 Example regress_connect_timeout_zero :
   accept {| g_auth_query := false; g_auth_user := false; g_auth_password := false;
             g_connect_timeout := 0; g_idle_timeout := 600000; g_server_lifetime := 3600000;
+            g_tls_cert := None; g_tls_key := None; g_plugins := None;
             c_pools := [mkpool [one [48] 1] [([48], usr [117] 5)] (DShard 0) s_any] |} = false.
 Proof. vm_compute. reflexivity. Qed.
 Example regress_mirror_role_server :
@@ -232,7 +267,7 @@ Proof. vm_compute. reflexivity. Qed.
 Definition auth_user_password_only : config :=
   mkcfg [let p := mkpool [([48], shd [sv 1 Primary])] [([48], usr [117] 5)] (DShard 0) s_any in
      {| p_name := p_name p; p_default_role := p_default_role p; p_default_shard := p_default_shard p;
-        p_parser := false; p_rw_split := false; p_plugins := false; p_auto_key := None;
+        p_parser := false; p_rw_split := false; p_plugins := None; p_pool_mode := Transaction; p_auto_key := None;
         p_key_regex := None; p_shard_regex := None;
         p_auth_query := false; p_auth_user := true; p_auth_password := true;
         p_connect_timeout := None; p_idle_timeout := None; p_server_lifetime := None;
@@ -253,6 +288,44 @@ Example keys_1_3_would_misindex :
   | Panics _ => False
   end.
 Proof. vm_compute. split; reflexivity. Qed.
+
+(* settings precedence, non-vacuity: global and pool-level [plugins], user-level pool_mode and timeouts *)
+Definition gplug : plug := {| pl_table_access := Some (true, [[103]]); pl_query_logger := Some true |}.
+Definition pplug : plug := {| pl_table_access := Some (false, [[112]]); pl_query_logger := None |}.
+Definition ex_settings : config :=
+  let p := mkpool [([48], shd [sv 1 Primary])] [] (DShard 0) s_any in
+  let u1 := usr [117] 5 in
+  let u2 := {| u_name := [118]; u_password := true; u_pool_size := 7; u_min_pool_size := Some 2;
+               u_connect_timeout := Some 20; u_idle_timeout := None; u_server_lifetime := Some 9;
+               u_pool_mode := Some Session; u_statement_timeout := 77 |} in
+  {| g_auth_query := false; g_auth_user := false; g_auth_password := false;
+     g_connect_timeout := 1000; g_idle_timeout := 600000; g_server_lifetime := 3600000;
+     g_tls_cert := Some true; g_tls_key := Some true; g_plugins := Some gplug;
+     c_pools := [ {| p_name := [97]; p_default_role := s_any; p_default_shard := DShard 0; p_parser := true; p_rw_split := false;
+                     p_plugins := Some pplug; p_pool_mode := Transaction; p_auto_key := Some [34; 116; 34; 46; 105; 100];
+                     p_key_regex := None; p_shard_regex := None; p_auth_query := false; p_auth_user := false; p_auth_password := false;
+                     p_connect_timeout := Some 300; p_idle_timeout := Some 400; p_server_lifetime := None;
+                     p_activity := false; p_act_delay := 100; p_act_ttl := 900; p_mut_ttl := 50;
+                     p_shards := p_shards p; p_users := [([48], u1); ([49], u2)] |};
+                  mkpool [([48], shd [sv 2 Primary])] [([48], usr [117] 5)] (DShard 0) s_any ] |}.
+Example ex_settings_built :
+  accept ex_settings = true /\
+  match build ex_settings with
+  | Built [a1; a2; b1] =>
+      map settings_t [a1; a2; b1] =
+      [ (Transaction, Some (plug_t pplug), user_t (usr [117] 5), (Some [116; 46; 105; 100], true, false), Some (5, None, (300, 400, 3600000)));
+        (Session, Some (plug_t pplug), ([118], 7, Some 2, (Some Session, 77), (Some 20, None, Some 9)), (Some [116; 46; 105; 100], true, false), Some (7, Some 2, (20, 400, 9)));
+        (Transaction, Some (plug_t gplug), user_t (usr [117] 5), (None, false, false), Some (5, None, (1000, 600000, 3600000))) ]
+  | _ => False
+  end.
+Proof. split; vm_compute; reflexivity. Qed.
+(* with a loadable TLS pair the shard numbering is still checked (the seeded early return) *)
+Example regress_tls_does_not_skip_pools :
+  accept {| g_auth_query := false; g_auth_user := false; g_auth_password := false;
+            g_connect_timeout := 1000; g_idle_timeout := 600000; g_server_lifetime := 3600000;
+            g_tls_cert := Some true; g_tls_key := Some true; g_plugins := None;
+            c_pools := [mkpool [one [49] 1; one [50] 2] [([48], usr [117] 5)] (DShard 0) s_any] |} = false.
+Proof. vm_compute. reflexivity. Qed.
 
 (* spellings *)
 Example spellings :
